@@ -277,3 +277,73 @@ pub fn count_iso_classes(syms: &[MSym]) -> usize {
     }
     m.len()
 }
+
+/// A random connected complete 2D D-set with exactly n chambers, built constructively: the
+/// commuting pair (op0, op2) is assembled from blocks of 1, 2 or 4 chambers, op1 is a random
+/// involution; retried until connected. Labels are shuffled.
+pub fn random_2d_set(rng: &mut Rng, n: usize) -> MSym {
+    loop {
+        let mut s = MSym::new(2, n);
+        let mut free: Vec<usize> = (1..=n).collect();
+        rng.shuffle(&mut free);
+        while !free.is_empty() {
+            let k = free.len();
+            let choice = rng.below(8);
+            if k >= 4 && choice < 4 {
+                let (a, b, c, d) = (free.pop().unwrap(), free.pop().unwrap(), free.pop().unwrap(), free.pop().unwrap());
+                s.op[0][a] = b; s.op[0][b] = a; s.op[0][c] = d; s.op[0][d] = c;
+                s.op[2][a] = c; s.op[2][c] = a; s.op[2][b] = d; s.op[2][d] = b;
+            } else if k >= 2 && choice < 7 {
+                let (a, b) = (free.pop().unwrap(), free.pop().unwrap());
+                match rng.below(3) {
+                    0 => { s.op[0][a] = b; s.op[0][b] = a; s.op[2][a] = a; s.op[2][b] = b; }
+                    1 => { s.op[0][a] = a; s.op[0][b] = b; s.op[2][a] = b; s.op[2][b] = a; }
+                    _ => { s.op[0][a] = b; s.op[0][b] = a; s.op[2][a] = b; s.op[2][b] = a; }
+                }
+            } else {
+                let a = free.pop().unwrap();
+                s.op[0][a] = a;
+                s.op[2][a] = a;
+            }
+        }
+        let mut rest: Vec<usize> = (1..=n).collect();
+        rng.shuffle(&mut rest);
+        while let Some(a) = rest.pop() {
+            if !rest.is_empty() && !rng.chance(1, 6) {
+                let b = rest.pop().unwrap();
+                s.op[1][a] = b;
+                s.op[1][b] = a;
+            } else {
+                s.op[1][a] = a;
+            }
+        }
+        if s.is_connected() {
+            debug_assert!(s.is_complete_set() && s.ops_are_involutions() && s.far_ops_commute());
+            return s;
+        }
+    }
+}
+
+/// Random branching (constant per orbit) from the given pool.
+pub fn random_branching(rng: &mut Rng, s: &MSym, pool: &[usize]) -> MSym {
+    let mut x = s.clone();
+    for (i, _, members, _) in adjacent_orbits(s) {
+        let v = *rng.pick(pool);
+        for e in members {
+            x.v[i][e] = v;
+        }
+    }
+    x
+}
+
+/// Random 2D symbols with 7..=max_n chambers.
+pub fn random_larger_2d_symbols(seed: u64, count: usize, max_n: usize, pool: &[usize]) -> Vec<MSym> {
+    let mut rng = Rng::stream(seed, 0x2d2d);
+    (0..count)
+        .map(|_| {
+            let n = 7 + rng.below(max_n - 6);
+            let s = random_2d_set(&mut rng, n);
+            random_branching(&mut rng, &s, pool)
+        })
+        .collect()
+}
